@@ -75,6 +75,59 @@ func init() {
 			if fi == nil {
 				return
 			}
+			// what is compared: the bytes on disk and the bytes gen would write, unmodified
+			cmp := 0
+			fi.inspect(fi.Decl.Body, func(nd ast.Node) bool {
+				cl, ok := nd.(*ast.CompositeLit)
+				if !ok || !isNamed(fi.Info.TypeOf(cl), "github.com/pmezard/go-difflib/difflib", "UnifiedDiff") {
+					return true
+				}
+				cmp++
+				strip := func(e ast.Expr) ast.Expr {
+					for i := 0; i < 6; i++ {
+						e = ast.Unparen(fi.deref(e))
+						call, ok := e.(*ast.CallExpr)
+						if !ok || len(call.Args) != 1 {
+							return e
+						}
+						if tv, ok := fi.Info.Types[call.Fun]; ok && tv.IsType() && isString(tv.Type) {
+							e = call.Args[0] // string(x)
+							continue
+						}
+						if fi.calleeName(call) == "github.com/pmezard/go-difflib/difflib.SplitLines" {
+							e = call.Args[0]
+							continue
+						}
+						return e
+					}
+					return e
+				}
+				for _, el := range cl.Elts {
+					kv, ok := el.(*ast.KeyValueExpr)
+					if !ok {
+						continue
+					}
+					switch kv.Key.(*ast.Ident).Name {
+					case "A":
+						src := strip(kv.Value)
+						okA := false
+						if d := fi.defOf(src); d != nil && d.idx == 0 {
+							if rc := fi.isCall(d.rhs, "io/ioutil.ReadFile", "os.ReadFile"); rc != nil {
+								if f := fi.selField(rc.Args[0]); f != nil && f.Name() == "OutputPath" {
+									okA = true
+								}
+							}
+						}
+						r.Check(okA, "compared/on-disk-bytes", kv.Pos(), "the left side of the comparison is exactly what ReadFile(out.OutputPath) returned (no normalisation) — got %s", exprShort(src))
+					case "B":
+						src := strip(kv.Value)
+						f := fi.selField(src)
+						r.Check(f != nil && f.Name() == "Content", "compared/generated-bytes", kv.Pos(), "the right side is exactly the result's Content, the bytes Commit would write — got %s", exprShort(src))
+					}
+				}
+				return true
+			})
+			r.Check(cmp == 1, "compared/site", fi.Decl.Pos(), "one comparison site (%d)", cmp)
 			n := 0
 			for i, ret := range fi.returnsOf() {
 				n++
@@ -163,7 +216,11 @@ func init() {
 					for _, g := range gs {
 						if x, ne, ok := fi.lenTest(g); ok && ne {
 							if f := fi.selField(x); f != nil && f.Name() == "Errs" {
-								onErrs = len(gs) >= 1
+								// … under that condition alone: whatever else is true of the package
+								// (it may also carry content, when only formatting failed)
+								if loop := fi.enclosingLoop(as); loop != nil && len(fi.GuardsWithin(as, loop)) == 1 {
+									onErrs = true
+								}
 							}
 						}
 						if x, isNil, ok := fi.nilTest(g); ok && !isNil && isErrorType(fi.Info.TypeOf(x)) {
@@ -172,7 +229,7 @@ func init() {
 					}
 					return true
 				})
-				r.Check(onErrs, name+"/cleared-on-package-errors", fi.Decl.Pos(), "success=false when a package's result carries errors")
+				r.Check(onErrs, name+"/cleared-on-package-errors", fi.Decl.Pos(), "success=false whenever a package's result carries errors, under no further condition")
 				r.Check(onOp, name+"/cleared-on-operation-error", fi.Decl.Pos(), "success=false when writing/diffing a package's output fails")
 				for i, ret := range fi.returnsOf() {
 					v, ok := fi.constInt(ret.Results[0])
@@ -733,6 +790,25 @@ func init() {
 					if pos >= 0 {
 						got = append(got, seq(c.Fn(c.W, "gen.inject"))...)
 					}
+				}
+				// the set is built with the injector's own parameters, always
+				for _, cl := range fi.callsDeep(fi.Decl.Body) {
+					if fi.calleeName(cl) != pathW+".objectCache.processNewSet" || len(cl.Args) < 4 {
+						continue
+					}
+					okA := false
+					if u, ok := ast.Unparen(fi.deref(cl.Args[3])).(*ast.UnaryExpr); ok && u.Op == token.AND {
+						if lit, ok := u.X.(*ast.CompositeLit); ok && isNamed(fi.Info.TypeOf(lit), pathW, "InjectorArgs") {
+							for _, el := range lit.Elts {
+								if kv, ok := el.(*ast.KeyValueExpr); ok && kv.Key.(*ast.Ident).Name == "Tuple" {
+									if d := fi.defOf(kv.Value); d != nil && d.idx == 0 && fi.isCall(d.rhs, pathW+".injectorFuncSignature") != nil {
+										okA = true
+									}
+								}
+							}
+						}
+					}
+					r.Check(okA, name+"/set-built-with-injector-parameters", cl.Pos(), "processNewSet always receives &InjectorArgs{Tuple: <the parameters injectorFuncSignature returned>} (so parameter conflicts and bindings to parameters are judged alike by gen and check)")
 				}
 				r.Check(strings.Join(got, ",") == strings.Join(order, ","), name+"/pipeline-order", fi.Decl.Pos(), "pipeline: %s", strings.ReplaceAll(strings.Join(got, " → "), pathW+".", ""))
 				// each stage's failure records and continues
